@@ -47,6 +47,10 @@ def loc_dict(d):              # contents of a dict object
     return Loc('dict', d)
 
 
+def loc_each(lst, attr):      # x.attr for every element x of a list
+    return Loc('each', lst, attr)
+
+
 class Contract:
     def __init__(self, target: str, klass):
         self.target = target
@@ -346,15 +350,39 @@ def eval_modifies(ip: Interp, con: Contract, locs) -> List[Loc]:
     return out
 
 
+def loc_ref(ip: Interp, o: SV):
+    """Reference expression of a location's object; a possibly-None object designates `nowhere`."""
+    if o.k == 'ref':
+        return o.e
+    if o.k == 'pylist' and o.py.href is not None:
+        return o.py.href
+    if o.k == 'val':
+        nowhere = z3.Int('nowhere!')
+        return z3.If(Val.is_r(o.e), Val.rv(o.e), nowhere)
+    return None
+
+
 def havoc(ip: Interp, locs_list: List[Loc]):
     st = ip.st
     for L in locs_list:
         o = L.obj
-        if o.k != 'ref':
+        if L.kind == 'each':
+            segs = L.segs
+            if len(segs) != 1 or segs[0][0] != 'heap':
+                raise Unsupported('loc_each over a non-heap list')
+            sg = segs[0]
+            F0 = st.F(L.attr)
+            F1 = st.fresh('hv', E.sorts.FieldArr)
+            rr, ii = z3.Int('r!h'), z3.Int('i!h')
+            member = z3.Exists([ii], z3.And(0 <= ii, ii < sg[4], Val.rv(sg[3][ii]) == rr))
+            st.fact(z3.ForAll([rr], z3.Implies(z3.Not(member), F1[rr] == F0[rr]), patterns=[F1[rr]]))
+            st.set_arr('F:' + L.attr, F1)
+            continue
+        r = loc_ref(ip, o)
+        if r is None:
             if o.k == 'none':
                 continue
             raise Unsupported('modifies location on a non-reference')
-        r = o.e
         if L.kind == 'field':
             st.set_arr('F:' + L.attr, z3.Store(st.F(L.attr), r, st.fresh('hv', Val)), r)
         elif L.kind == 'list':
@@ -379,6 +407,13 @@ def _loc_builtin(kind):
 _B.builtin(loc)(_loc_builtin('field'))
 _B.builtin(loc_list)(_loc_builtin('list'))
 _B.builtin(loc_dict)(_loc_builtin('dict'))
+def _loc_each_builtin(ip, args, kw, fr):
+    L = Loc('each', args[0], _B._const_str(args[1]))
+    L.segs = ip._segments(args[0])       # snapshot of the list in the state the location is named in
+    return SV('loc', py=L)
+
+
+_B.builtin(loc_each)(_loc_each_builtin)
 
 Interp.apply_contract = lambda self, con, fn, args, kwargs, bound_cls: apply_contract(self, con, fn, args, kwargs, bound_cls)
 
@@ -438,14 +473,23 @@ def frame_goal(ip: Interp, pre_heap: Dict[str, Any], post_heap: Dict[str, Any], 
         if pre.eq(post):
             continue
         exc = []
+        extra = []
         if name.startswith('F:'):
             attr = name[2:]
-            exc = [L.obj.e for L in allowed if L.kind == 'field' and L.attr == attr and L.obj.k == 'ref']
+            exc = [loc_ref(ip, L.obj) for L in allowed if L.kind == 'field' and L.attr == attr]
+            for L in allowed:
+                if L.kind == 'each' and L.attr == attr:
+                    segs = L.segs
+                    if len(segs) == 1 and segs[0][0] == 'heap':
+                        sg = segs[0]
+                        ii = z3.Int('i!f')
+                        extra.append(z3.Not(z3.Exists([ii], z3.And(0 <= ii, ii < sg[4], Val.rv(sg[3][ii]) == r))))
         elif name in ('L_el', 'L_len'):
-            exc = [L.obj.e for L in allowed if L.kind == 'list' and L.obj.k == 'ref']
+            exc = [loc_ref(ip, L.obj) for L in allowed if L.kind == 'list']
         else:
-            exc = [L.obj.e for L in allowed if L.kind == 'dict' and L.obj.k == 'ref']
-        cond = z3.And(old, *[r != x for x in exc])
+            exc = [loc_ref(ip, L.obj) for L in allowed if L.kind == 'dict']
+        exc = [x for x in exc if x is not None]
+        cond = z3.And(old, *[r != x for x in exc], *extra)
         goals.append((name, z3.ForAll([r], z3.Implies(cond, post[r] == pre[r]))))
     return goals
 
@@ -481,6 +525,7 @@ def verify_function(target: str, only: Optional[str] = None, timeout_ms: Optiona
         if vac == z3.unsat:
             res.error = 'vacuous precondition (requires is unsatisfiable)'
             return res
+        st.fact(z3.Int('nowhere!') >= st.alloc0 + 1000000)
         pre_heap = dict(st.heap)
         pre_nalloc = st.nalloc
         # raises conditions are evaluated in the pre-state, once
